@@ -145,7 +145,7 @@ func checkC20(c *Ctx) {
 	c.ruleRegisteredBeforeServed("C20-R8")
 
 	// R3
-	ru3 := c.R.Rule("C20-R3", "no check-then-act across a lock gap: when a function releases a monitor's lock and takes it again, a write to a guarded member in the later critical section is preceded, in that same section, by a fresh read of that member", "E5 critical-section structure", 1)
+	ru3 := c.R.Rule("C20-R3", "no check-then-act across a lock gap: when a function releases a monitor's lock and takes it again, a write to a guarded member in the later critical section is preceded, in that same section, by a fresh read of that member; and when the later section is entered on the strength of a test made in the earlier one (or of the answer of a method of the monitor that locked for itself), it tests the member again before it changes it", "E5 critical-section structure + E2 control dependence", 1)
 	for _, f := range c.P.ModFuncs() {
 		fl := la.locks[f]
 		// does f unlock (non-deferred) and later lock the same mutex again?
@@ -203,6 +203,89 @@ func checkC20(c *Ctx) {
 							}
 							if !reread {
 								bad = fmt.Sprintf("%s is written after the lock was dropped and re-taken, based on what was read before the gap (no re-check under the new lock): another goroutine's update made in the gap is overwritten", n)
+							}
+							// the write is decided by a test made in the earlier critical section (a read of guarded
+							// state before the gap, or the answer of a method of the monitor that locked for itself):
+							// the later section must test again before it acts
+							fromEarlier := func(x ssa.Value) bool {
+								xi, isInstr := x.(ssa.Instruction)
+								if !isInstr || xi.Parent() != f {
+									return false
+								}
+								if xi == in {
+									return true
+								}
+								for _, m2 := range la.monitors {
+									for _, mi2 := range m2.fields {
+										if mi2.guardLock() != field {
+											continue
+										}
+										for _, a2 := range mi2.accesses {
+											if a2.fn == f && a2.instr == xi && !core.Dominates(relock, xi) && reachesInstr(xi, relock) {
+												return true
+											}
+										}
+									}
+								}
+								return false
+							}
+							afterGap := func(x ssa.Value) bool {
+								xi, isInstr := x.(ssa.Instruction)
+								if !isInstr || xi.Parent() != f {
+									return false
+								}
+								for _, a2 := range mi.accesses {
+									if a2.fn == f && a2.instr == xi && core.Dominates(relock, xi) {
+										return true
+									}
+								}
+								return false
+							}
+							// the places of the later section that change the member: the write itself, and stores through
+							// pointers into it (first := &m.intervals[0]; first.from++)
+							muts := []ssa.Instruction{a.instr}
+							for _, a2 := range mi.accesses {
+								lv, isVal := a2.instr.(ssa.Value)
+								if a2.fn != f || a2.write || !isVal || !core.Dominates(relock, a2.instr) {
+									continue
+								}
+								for _, sb := range f.Blocks {
+									for _, si := range sb.Instrs {
+										st, isStore := si.(*ssa.Store)
+										if !isStore {
+											continue
+										}
+										addr := st.Addr
+										for k := 0; k < 6; k++ {
+											switch x := addr.(type) {
+											case *ssa.FieldAddr:
+												addr = x.X
+												continue
+											case *ssa.IndexAddr:
+												addr = x.X
+												continue
+											}
+											break
+										}
+										if addr == lv {
+											muts = append(muts, st)
+										}
+									}
+								}
+							}
+							for _, w := range muts {
+								stale, rechecked := false, false
+								for _, cc := range controllingConds(w.Block(), nil) {
+									if depReaches(cc.cond, fromEarlier) {
+										stale = true
+									}
+									if ci, ok := cc.cond.(ssa.Instruction); ok && core.Dominates(relock, ci) && depReaches(cc.cond, afterGap) {
+										rechecked = true
+									}
+								}
+								if stale && !rechecked {
+									bad = fmt.Sprintf("%s is changed (%s) in a critical section that was entered on the strength of a test made in an earlier one (check, unlock, lock, act) and not repeated: another goroutine can change %s in the gap, and the act then runs on a state the test no longer describes", n, c.whereI(w), n)
+								}
 							}
 						}
 					}
